@@ -46,7 +46,9 @@ def run(ctx):
     if r is None:
         ctx.probes["no_applicable_call"] += 1
         raise Skip()
+    S_walk = S
     S, call, want, info = r
+    history_ok = interp.state_eq(S, S_walk) and bool(trail)
     aname, args = call
     act = W.action(aname)
     ctx.log("input", W.dom_text_plain, sorted(S[0]), sorted(S[1].items()), aname, tuple(args))
@@ -78,7 +80,35 @@ def run(ctx):
         if k:
             ctx.new_epoch()
         site = f"Operator.apply schedule#{k}"
-        d, p, s0 = lib(ctx, W, S, f"-{k}")
+        # the input state is built by one of three histories: problem parser (facts annotated with the predicates'
+        # declared types), the library's own transitions from the initial state (facts annotated with the types of
+        # the adding actions' parameters), trajectory parser (facts annotated with the objects' own types)
+        route = 0 if k == 0 else ctx.s("ops").draw(3)
+        if route == 1 and history_ok:
+            d, p, s0 = lib(ctx, W, None, f"-{k}")
+            cur = interp.init_state(W.P)
+            for (ta, targs) in trail:
+                try:
+                    s0 = L().Operator(d.actions[ta], d, list(targs), p.objects).apply(s0)
+                except Exception as e:
+                    raise Violation("C03/applicable-action-raised", "Operator.apply (history)",
+                                    f"{C.fmt_call(ta, targs)}: {type(e).__name__}: {e}")
+                cur, _ = interp.successor(cur, W.action(ta), targs, W.D, W.objs)
+                compare(ctx, C.abs_state(s0, "Operator.apply (history)", ID), cur, "Operator.apply (history)", "",
+                        W, cur, (ta, targs))
+            ctx.probes["input_state_by_history"] += 1
+        elif route == 2:
+            d, p, _ = lib(ctx, W, None, f"-{k}")
+            text = "(:state " + " ".join("(" + " ".join(f) + ")" for f in sorted(S[0])) + " " + " ".join(
+                f"(= ({' '.join(kk)}) {G.r_num(v)})" for kk, v in S[1].items()) + ")"
+            try:
+                ast = L().PDDLTokenizer(pddl_str=text).parse()
+                s0 = L().TrajectoryParser(d, p).parse_state(ast[1:])
+            except Exception as e:
+                raise Violation("C03/generated-input-rejected", "TrajectoryParser.parse_state", f"{type(e).__name__}: {e}")
+            ctx.probes["input_state_by_trajectory_parser"] += 1
+        else:
+            d, p, s0 = lib(ctx, W, S, f"-{k}")
         flags = FLAGS[ctx.s("ops").draw(4)] if k else FLAGS[0]
         op = L().Operator(d.actions[aname], d, list(args), p.objects)
         rec = []
